@@ -367,7 +367,11 @@ class HierDictDocument(DictDocument):
 
             inst._safe_set(k, subinst, member, member_attrs)
 
-            frequencies[k] += 1
+            if mo > 1 and v is not None:
+                # every item of the sequence is one occurrence of the member
+                frequencies[k] += len(v)
+            else:
+                frequencies[k] += 1
 
         attrs = self.get_cls_attrs(cls)
         if validator is self.SOFT_VALIDATION and attrs.validate_freq:
